@@ -1113,6 +1113,7 @@ type WCase struct {
 	Want  string `json:"want"`  // packet kind waited for (ExpectPacket) or "" for ExpectMessage
 	Types []int  `json:"types"` // message types for ExpectMessage
 	Chunk uint32 `json:"chunk"` // B announces this chunk size first when non-zero
+	AMF3  []int  `json:"amf3,omitempty"` // indices of Seq whose command is sent as an AMF3 command message (type 17, leading 0 byte)
 }
 
 func rtmpxMsg(typ uint8, sid uint32, payload []byte) rtmpref.Msg {
@@ -1144,6 +1145,10 @@ func runWait2(c WCase, nomatch *bool) (skipped int, err error) {
 	for _, i := range c.Raw {
 		rawAt[i] = true
 	}
+	amf3At := map[int]bool{}
+	for _, i := range c.AMF3 {
+		amf3At[i] = true
+	}
 	for i, p := range c.Seq {
 		if rawAt[i] && c.Want == "" {
 			m := rtmp.NewStreamMessage(1)
@@ -1156,6 +1161,16 @@ func runWait2(c WCase, nomatch *bool) (skipped int, err error) {
 		}
 		bp := p.build()
 		mb, _ := bp.MarshalBinary()
+		if amf3At[i] && p.msgType() == 20 {
+			m := rtmp.NewStreamMessage(1)
+			m.MessageType = rtmp.MessageTypeAMF3Command
+			m.Payload = append([]byte{0}, mb...)
+			if e := pp.b.WriteMessage(m); e != nil {
+				return 0, fmt.Errorf("WriteMessage(%s as AMF3 command): %v", p.Kind, e)
+			}
+			all = append(all, sent{17, m.Payload, dispatchKind(p)})
+			continue
+		}
 		if e := pp.b.WritePacket(bp, 1); e != nil {
 			return 0, fmt.Errorf("WritePacket(%s): %v", p.Kind, e)
 		}
@@ -1164,7 +1179,10 @@ func runWait2(c WCase, nomatch *bool) (skipped int, err error) {
 	// model: index of the first match
 	match := -1
 	for i, s := range all {
-		if c.Want != "" {
+		if c.Want == "any" {
+			match = i // a wait through the Packet interface: every packet is of that type
+			break
+		} else if c.Want != "" {
 			if s.kind == c.Want {
 				match = i
 				break
@@ -1188,6 +1206,12 @@ func runWait2(c WCase, nomatch *bool) (skipped int, err error) {
 	var e error
 	if c.Want != "" {
 		switch c.Want {
+		case "any":
+			var p rtmp.Packet
+			m, e = pp.a.ExpectPacket(&p)
+			if e == nil && p == nil {
+				return 0, fmt.Errorf("ExpectPacket(*Packet) returned without setting the packet")
+			}
 		case "publish":
 			var p *rtmp.PublishPacket
 			m, e = pp.a.ExpectPacket(&p)
@@ -1309,11 +1333,12 @@ func TestTypedWait(t *testing.T) {
 			c.Chunk = rapid.SampledFrom([]uint32{1, 7, 128, 4096, 1 << 20}).Draw(t, "chunkv")
 		}
 		if rapid.Bool().Draw(t, "mode") {
-			c.Want = rapid.SampledFrom([]string{"publish", "call", "connect", "uc", "wack", "spb"}).Draw(t, "want")
+			c.Want = rapid.SampledFrom([]string{"publish", "call", "connect", "uc", "wack", "spb", "any"}).Draw(t, "want")
 		} else {
 			c.Types = rapid.SliceOfN(rapid.SampledFrom([]int{1, 4, 5, 6, 8, 9, 20, 18}), 0, 3).Draw(t, "types")
 			c.Raw = rapid.SliceOfN(rapid.IntRange(0, n-1), 0, 4).Draw(t, "raw")
 		}
+		c.AMF3 = rapid.SliceOfN(rapid.IntRange(0, n-1), 0, 3).Draw(t, "amf3")
 		var skipped int
 		var nomatch bool
 		err := ev.Try(func() error {
